@@ -5,7 +5,7 @@ sys.path.insert(0, '/verif/tools')
 import vlib
 mod, cfg = sys.argv[1], sys.argv[2]
 w = int(sys.argv[3]) if len(sys.argv) > 3 else 8
-r = vlib.run_tlc(mod, cfg, workers=w, timeout=3000)
+r = vlib.run_tlc(mod, cfg, workers=w, timeout=int(sys.argv[4]) if len(sys.argv) > 4 else 120)
 print(cfg, "generated", r.generated, "distinct", r.distinct, "replay", len(r.replay), "violated", r.violated, "error", r.error, "wall", round(r.wall, 1))
 if r.violated or r.error:
     import re
